@@ -5,6 +5,7 @@
 package interp
 
 import (
+	"unicode/utf8"
 	"bytes"
 	"fmt"
 	"go/constant"
@@ -1157,11 +1158,57 @@ func rangeIter(x value, t types.Type) iter {
 	case *smap:
 		return x.iter()
 	case sstr:
-		panic(unsupported("range over symbolic string"))
+		return &sstrIter{s: x}
 	case string:
 		return &stringIter{Reader: strings.NewReader(x)}
 	}
 	panic(fmt.Sprintf("cannot range over %T", x))
+}
+
+// sstrIter ranges over a string with symbolic bytes. Symbolic bytes must be ASCII (one rune per byte);
+// a path on which one can be >= 0x80 is aborted as unsupported.
+type sstrIter struct {
+	s sstr
+	i int
+}
+
+func (it *sstrIter) next() tuple {
+	if it.i >= len(it.s) {
+		return tuple{false, 0, int32(0)}
+	}
+	pos := it.i
+	switch c := it.s[pos].(type) {
+	case uint8:
+		if c < 0x80 {
+			it.i++
+			return tuple{true, pos, int32(c)}
+		}
+		// a concrete multi-byte rune: all of its bytes must be concrete
+		n := 1
+		for pos+n < len(it.s) && n < 4 {
+			if _, ok := it.s[pos+n].(uint8); !ok {
+				break
+			}
+			n++
+		}
+		b := make([]byte, n)
+		for k := range b {
+			b[k] = it.s[pos+k].(uint8)
+		}
+		r, size := utf8.DecodeRune(b)
+		if pos+size < len(it.s) || size == n {
+			it.i += size
+			return tuple{true, pos, int32(r)}
+		}
+		panic(unsupported("range over a string mixing non-ASCII concrete and symbolic bytes"))
+	case *sym:
+		if !cur.cond(mkBool("(bvult " + c.e + " #x80)")) {
+			panic(unsupported("range over a string with a non-ASCII symbolic byte"))
+		}
+		it.i++
+		return tuple{true, pos, &sym{e: "((_ zero_extend 24) " + c.e + ")", k: symBV, w: 32, gk: types.Int32}}
+	}
+	panic("sstrIter")
 }
 
 // widen widens a basic typed value x to the widest type of its
